@@ -8,6 +8,7 @@ import (
 	"log"
 	"math"
 	"os"
+	"runtime"
 	"sync/atomic"
 	"testing"
 	"time"
@@ -399,8 +400,8 @@ type faulty struct {
 	persist    bool
 	calls      int64
 	failed     int64
-	// meet > 1: a failing Distance call waits (bounded) until that many failing calls are in flight, so
-	// that several workers report their error at the same moment
+	// meet > 1: a failing Distance call waits (bounded) until that many failing calls are in flight (one
+	// per worker if enough pairs remain), so that several workers report their error at the same moment
 	meet    int64
 	arrived int64
 }
@@ -417,9 +418,13 @@ func (f *faulty) hit() bool {
 func (f *faulty) Distance(s1, s2 []uint8, w []float64) (float64, error) {
 	if f.inDistance && f.hit() {
 		if f.meet > 1 {
+			// a spinning barrier (bounded): all the waiting calls return within nanoseconds of each other
 			atomic.AddInt64(&f.arrived, 1)
-			for i := 0; i < 500 && atomic.LoadInt64(&f.arrived) < f.meet; i++ {
-				time.Sleep(20 * time.Microsecond)
+			for i := 0; i < 200000 && atomic.LoadInt64(&f.arrived) < f.meet; i++ {
+				runtime.Gosched()
+				if i%1000 == 999 {
+					time.Sleep(10 * time.Microsecond)
+				}
 			}
 		}
 		return 0, errInjected
@@ -439,7 +444,7 @@ type faultCase struct {
 	Opt        refdist.Options `json:"opt"`
 	InDistance bool            `json:"in_distance"` // the failing method: Distance or Sequence
 	Persist    bool            `json:"persist"`     // every call from the k-th on fails
-	Together   bool            `json:"together"`    // with Persist and Distance: two failing calls wait for each other, the workers report at the same time
+	Together   bool            `json:"together"`    // with Persist and Distance: the failing calls wait until every worker holds one, the workers report at the same time
 	// K and Threads are filled while the case runs (the side file then names the hanging call)
 	K         int `json:"k"`
 	Threads   int `json:"threads"`
@@ -466,7 +471,10 @@ func runFault(test string, c faultCase) (m [][]float64, err error, failed int64)
 	}
 	f := &faulty{DistModel: real, inDistance: c.InDistance, k: int64(c.K), persist: c.Persist}
 	if c.Together && c.Persist && c.InDistance && c.Threads >= 2 && c.Remaining >= 2 {
-		f.meet = 2
+		f.meet = int64(c.Threads)
+		if c.Remaining < c.Threads {
+			f.meet = int64(c.Remaining)
+		}
 	}
 	al := gen.MustBuild(distrun.Ali(c.Rows))
 	pbt.Guarded(test, c, pbt.WatchdogLimit(20*time.Second), func() {
